@@ -78,6 +78,52 @@ class Dispatcher:
                         out.append((bi, bb))
         return out
 
+    def len_interval_at(self, target):
+        """Interval [lo, hi] of Map::len(object payload) implied by the comparisons and is_empty tests that hold on
+        every path to block `target` (`if obj.len() > 1 || obj.is_empty() { return Ok(None) }`)."""
+        from .core import implied_comparisons, edge_dominates
+        b = self.body
+        lo, hi = 0, float("inf")
+        for (op, x, y) in implied_comparisons(b, target):
+            if self._is_len_of_object(y) and x[0] == "const":
+                x, y = y, x
+                op = {"Lt": "Gt", "Le": "Ge", "Gt": "Lt", "Ge": "Le", "Eq": "Eq", "Ne": "Ne"}[op]
+            if not (self._is_len_of_object(x) and y[0] == "const" and isinstance(const_value(y[1]), int)):
+                continue
+            c = const_value(y[1])
+            if op == "Eq":
+                lo, hi = max(lo, c), min(hi, c)
+            elif op == "Lt":
+                hi = min(hi, c - 1)
+            elif op == "Le":
+                hi = min(hi, c)
+            elif op == "Gt":
+                lo = max(lo, c + 1)
+            elif op == "Ge":
+                lo = max(lo, c)
+            elif op == "Ne":
+                if c == lo:
+                    lo += 1
+                if c == hi:
+                    hi -= 1
+        for sb in b.reachable():
+            tt = b.blocks[sb]["term"]
+            if tt["k"] != "SwitchInt" or tt.get("dty") != "bool":
+                continue
+            e = strip_refs(b.trace(tt["discr"]))
+            neg = False
+            while e[0] == "unop" and e[1] == "Not":
+                neg, e = not neg, strip_refs(e[2])
+            if e[0] == "call" and e[1] and e[1]["path"].endswith("::is_empty") and "serde_json::Map" in e[1]["path"] and self._is_object_payload(e[2][0]):
+                for truth in (True, False):
+                    if edge_dominates(b, sb, bool_edge(b, sb, truth), target) and not edge_dominates(b, sb, bool_edge(b, sb, not truth), target):
+                        empty = truth != neg
+                        if empty:
+                            hi = min(hi, 0)
+                        else:
+                            lo = max(lo, 1)
+        return lo, hi
+
     def _is_len_of_object(self, e):
         if e[0] == "call" and e[1] and e[1]["path"].endswith("::len") and "serde_json::Map" in e[1]["path"]:
             return self._is_object_payload(e[2][0])
